@@ -175,6 +175,12 @@ class Models:
             rec['proved'] += 1
             if rec['witness'] is None: rec['witness'] = 'condition is constant true on a feasible path'
             return None
+        if not isinstance(c, int) and e.undef_vars(c) and e.undef_dependence(st, c):
+            # the asserted observable is a function of uninitialised data: reported as such (replayed under valgrind),
+            # not as a plain assertion failure whose garbage values could not be reproduced natively
+            rec['failed'] += 1
+            e.fail(st, 'UNINIT-DECISION', f'value checked at vf_assert site {site} depends on uninitialised data', site=site, stack=stack)
+            s.stop()
         neg = z3.BoolVal(True) if isinstance(c, int) else z3.Not(c)
         r, m = e.check(st, neg, want_model=True, important=True)
         if r == 'unsat':
